@@ -28,7 +28,14 @@ def strip_lean_comments(s):
 def lean_obligations(pid, tier="quick"):
     """build the library, list the property theorems of Properties/<pid>.lean with their axioms"""
     res = {"ok": True, "theorems": [], "errors": []}
-    r = subprocess.run(["lake", "build", "Micm", "micm_model"], cwd=LEAN, capture_output=True, text=True)
+    # Only this property's own theorem modules (and what they import) and the model driver are obligations of this
+    # check: a proof of ANOTHER property that no longer compiles (e.g. a coefficient table edit breaking C08's order
+    # conditions) must not raise an alarm here.
+    pdir0 = os.path.join(LEAN, "Micm", "Properties")
+    root0 = open(os.path.join(LEAN, "Micm.lean")).read()
+    mods = ["Micm.Properties." + f[:-5] for f in sorted(os.listdir(pdir0)) if re.fullmatch(pid + r"[a-z]?\.lean", f)
+            and re.search(r"^import Micm\.Properties\." + f[:-5] + r"\s*$", root0, flags=re.M)]
+    r = subprocess.run(["lake", "build", "micm_model"] + mods, cwd=LEAN, capture_output=True, text=True)
     if r.returncode != 0:
         res["ok"] = False
         res["errors"].append("lake build failed:\n" + (r.stdout + r.stderr)[-3000:])
